@@ -8,13 +8,42 @@ RULE = ("polylines with open and closed subpaths (turning angles 0..180 incl. ex
         "zero-length segments, subpaths returning to their start before Close, ops after Close), three caps, three joins, "
         "miter limits around the switch point, widths incl. 0, negative and NaN: stroke_to_path's op list is compared bit for "
         "bit with the f32 model; and DrawTarget::stroke (white on transparent, identity / translated / uniformly scaled "
-        "transforms, also magnifying by up to 65536 and reducing by 64 with the geometry scaled inversely; paths lying wholly outside the surface whose caps or miter tips reach in) is compared with the region of the statement computed in f64: pixels inside it by more than the margin "
+        "transforms, also magnifying by up to 65536 and reducing by up to 4096 with the geometry scaled inversely; paths lying wholly outside the surface whose caps or miter tips reach in) is compared with the region of the statement computed in f64: pixels inside it by more than the margin "
         "must be 255, pixels outside it by more than the margin 0; curved paths stroked under the identity and under scales up to 1000 are judged against the exact curve (within w/2 -+ 1 px) (a few 400x400 scenes stroke 120..200 px wide lines that turn by 0.5..8 degrees, where the join wedge is pixels wide); non-trivial = stroke with >= 2 segments")
+
+
+def manhattan(rng):
+    """the domain of the exact theorems (StrokeExact.v): integer vertices, horizontal / vertical segments (some of length
+    zero, some reversals), even integer width, butt / square caps, bevel / miter joins"""
+    x, y = rng.randrange(-40, 120), rng.randrange(-40, 120)
+    ops = ["M " + scene.fpt(float(x), float(y))]
+    x0, y0 = x, y
+    for _k in range(rng.randrange(1, 7)):
+        d = rng.choice([-1, 1]) * rng.choice([0, 1, 2, 5, 9, 30])
+        if rng.random() < 0.5:
+            x += d
+        else:
+            y += d
+        ops.append("L " + scene.fpt(float(x), float(y)))
+    if rng.random() < 0.4:
+        if x != x0 and y != y0:
+            ops.append("L " + scene.fpt(float(x0), float(y)))
+        ops.append("Z")
+    style = "STYLE %d %s %s %d 0 %d" % (FB(float(2 * rng.choice([1, 1, 2, 3, 8]))), rng.choice(["butt", "square"]), rng.choice(["bevel", "miter"]),
+                                        FB(rng.choice([10.0, 1.0, 2.0, 1.4142135, 0.0, 4.0])), FB(0.0))
+    return style, ops
 
 
 def make_lines(rng, n):
     # the winding rule of the stroked path is irrelevant to its outline (which is always filled NonZero): both rules
-    return ["pstroke %d %s %s" % (i, pc.style_tokens(rng), scene.path_tokens(pc.polyline_ops(rng), i % 2)) for i in range(n)]
+    lines = []
+    for i in range(n):
+        if i % 20 == 7:
+            style, ops = manhattan(rng)
+            lines.append("pstroke %d %s %s" % (i, style, scene.path_tokens(ops, i % 2)))
+        else:
+            lines.append("pstroke %d %s %s" % (i, pc.style_tokens(rng), scene.path_tokens(pc.polyline_ops(rng), i % 2)))
+    return lines
 
 
 def oracle(aug, impl):
@@ -44,8 +73,23 @@ def pixel_check(ctx):
         ml = rng.choice([10.0, 1.0, 2.0, 4.0, 1.5])
         s = rng.choice([1.0, 1.0, 0.5, 2.0])
         tx, ty = rng.choice([(0.0, 0.0), (0.25, -0.5), (2.0, 1.0)])
-        fam = i % 5
-        if fam == 3:
+        fam = i % 6
+        if fam == 5:
+            # two open subpaths whose strokes overlap: a line ending on the body of another (T junction), two lines ending
+            # at the same corner, a line crossing another; caps of every kind - every contour of the outline must add to
+            # the NonZero fill, none may cancel another
+            a = P(rng); b = P(rng)
+            k = rng.choice([0.5, 0.25, 0.75, 1.0, 0.0])
+            j = (a[0] + (b[0] - a[0]) * k, a[1] + (b[1] - a[1]) * k)          # a point on the first line (or one of its ends)
+            c = P(rng)
+            qz = lambda v: round(v * 4) / 4.0
+            j = (qz(j[0]), qz(j[1]))
+            second = [c, j] if rng.random() < 0.5 else [j, c]
+            if rng.random() < 0.25:     # crossing instead of ending there
+                second = [c, (qz(2 * j[0] - c[0]), qz(2 * j[1] - c[1]))]
+            ops = ["M " + scene.fpt(*a), "L " + scene.fpt(*b), "M " + scene.fpt(*second[0]), "L " + scene.fpt(*second[1])]
+            width = rng.choice([3.0, 4.0, 6.0]); cap = rng.choice(["square", "square", "round", "butt"])
+        elif fam == 3:
             # every vertex outside the surface, farther than half the width from it, while a miter tip or a square / round
             # cap reaches in: a sharp chevron (or a single capped line) pointing at the surface from a random side
             width = rng.choice([4.0, 6.0, 8.0, 10.0]); join = rng.choice(["miter", "miter", "round", "bevel"]); ml = rng.choice([10.0, 10.0, 4.0, 20.0])
@@ -69,7 +113,7 @@ def pixel_check(ctx):
         elif fam == 4:
             # the same kind of geometry drawn tiny in user space under a strongly magnifying transform (or huge under a
             # reducing one): widths, segment lengths and the region scale with it
-            s = rng.choice([1024.0, 16384.0, 20000.0, 65536.0, 1.0 / 64])
+            s = rng.choice([1024.0, 16384.0, 20000.0, 65536.0, 1.0 / 64, 1.0 / 2048, 1.0 / 4096])
             ops = [" ".join([o.split()[0]] + [str(FB(bits_f32(int(v)) / s)) for v in o.split()[1:]]) for o in ops]
             width = width / s
             tx, ty = 0.0, 0.0
@@ -90,11 +134,33 @@ def pixel_check(ctx):
         scenes.append("scene %d %d %d I %s ; xf %s ; stroke %s %s SRC solid ffffffff 3 %d 1" % (
             n + j, Wb, Wb, " ".join(["00000000"] * (Wb * Wb)), scene.xf_tokens(scene.IDENT), scene.path_tokens(ops, 0), style, FB(1.0)))
         meta.append((ops, width, cap, join, ml, 1.0, 0.0, 0.0))
+    # scenes kept from earlier failures (corpus): re-judged first
+    import os
+    ncorp = 0
+    cpath = os.path.join(build.ROOT, "corpus", "C04.scenes.seeded.cases")
+    for cl in ([l.strip() for l in open(cpath) if l.startswith("scene")] if os.path.exists(cpath) else []):
+        try:
+            hdr, cops = scene.split_ops(cl)
+            xf = [bits_f32(int(v)) for v in cops[0].split()[1:7]]
+            t = cops[1].split()
+            if t[0] != "stroke" or xf[1] != 0 or xf[2] != 0 or xf[0] != xf[3] or hdr.split()[2] != hdr.split()[3]:
+                continue
+            w_, pops, j = _path.parse_path(t, 1)
+            assert t[j] == "STYLE"
+            if int(t[j + 5]) != 0 or any(o[0] not in "MLZ" for o in pops):
+                continue
+            raw = []
+            for o in pops:
+                raw.append(o[0] if o[0] == "Z" else "%s %d %d" % (o[0], FB(o[1]), FB(o[2])))
+            ncorp += 1
+            scenes.insert(0, cl.split(" STROKED")[0]); meta.insert(0, (raw, bits_f32(int(t[j + 1])), t[j + 2], t[j + 3], bits_f32(int(t[j + 4])), xf[0], xf[4], xf[5]))
+        except Exception:
+            continue
     impl, died = build.run_sharded(build.RQV, scenes)
     checked = 0
-    for line, sc_line, m in zip(impl, scenes, meta):
+    for idx, (line, sc_line, m) in enumerate(zip(impl, scenes, meta)):
         W = H = int(sc_line.split()[2])
-        stride = 3 if W <= 24 else 7
+        stride = 1 if idx < ncorp else (3 if W <= 24 else 7)
         parts = scene.split_results(line)[1]
         if len(parts) < 2 or parts[1] in ("panic", "hang"):
             continue
@@ -108,7 +174,7 @@ def pixel_check(ctx):
         margin = 0.5 / s + 0.75 / s      # half a pixel (straight segments) + pixel half-diagonal, in user units
         for y in range(H):
             for x in range(W):
-                if W > 24:
+                if W > 24 and idx >= ncorp:
                     # wide-stroke scenes: every pixel of the band around the joined vertex, one in sixteen elsewhere
                     # (round caps and joins of this size show errors of a few percent of the radius as whole pixels)
                     if (abs(x - 200) > 12 or abs(y - 200) < 20) and ((x % 4) or (y % 4)):
@@ -131,12 +197,13 @@ def pixel_check(ctx):
 
 
 def curved_check(ctx):
-    """Curved paths stroked under the identity and under strongly magnifying transforms (the geometry scaled inversely):
+    """Curved paths stroked under the identity and under strongly magnifying transforms, alone or combined with quarter
+    turns and general rotations (the geometry mapped back through the inverse):
     a pixel farther than w/2 + 1 px (+ half diagonal) from the exact curve must be untouched, a pixel closer than
     w/2 - 1 px (- half diagonal) to it - and not beyond an open end - fully painted.  Round / bevel joins and butt /
     round caps only, so that the region is within w/2 of the path."""
     rng = ctx.rng
-    n = 40 if ctx.tier == "quick" else 600
+    n = 40 if ctx.tier == "quick" else 300
     W = H = 40
     zero = " ".join(["00000000"] * (W * H))
     scenes, meta = [], []
@@ -154,15 +221,31 @@ def curved_check(ctx):
         closed = rng.random() < 0.3
         width = rng.choice([4.0, 6.0, 8.0])
         cap, join = rng.choice(["butt", "round"]), rng.choice(["round", "bevel"])
-        toks = []
+        # the linear part: the scale alone, or combined with a quarter turn / a general rotation (about the surface centre)
+        th = rng.choice([0.0, 0.0, math.pi / 2, -math.pi / 2, math.pi, 1.0, 1.5, -2.3])
+        co, si = (round(math.cos(th)), round(math.sin(th))) if abs(th * 2 / math.pi - round(th * 2 / math.pi)) < 1e-9 else (math.cos(th), math.sin(th))
+        m = (s * co, s * si, -s * si, s * co, 0.0, 0.0)
+        cx, cy = W / 2.0, H / 2.0
+        m = m[:4] + (cx - (cx * m[0] / s + cy * m[2] / s), cy - (cx * m[1] / s + cy * m[3] / s))   # keeps the centre in place (device units)
+        m = tuple(bits_f32(FB(v)) for v in m)
+        det = m[0] * m[3] - m[1] * m[2]
+        def inv(p):
+            x, y = p[0] - m[4], p[1] - m[5]
+            return ((x * m[3] - y * m[2]) / det, (-x * m[1] + y * m[0]) / det)
+        def fwd(p):
+            return (p[0] * m[0] + p[1] * m[2] + m[4], p[0] * m[1] + p[1] * m[3] + m[5])
+        toks, dev2 = [], []
         for o in dev:
-            v = " ".join(str(FB(z / s)) for z in o[1:])
-            toks.append("%s %s%s" % (o[0], v, " K 0" if o[0] == "C" else ""))
+            us = [inv((o[k], o[k + 1])) for k in range(1, len(o), 2)]
+            us = [(bits_f32(FB(u[0])), bits_f32(FB(u[1]))) for u in us]
+            toks.append("%s %s%s" % (o[0], " ".join("%d %d" % (FB(u[0]), FB(u[1])) for u in us), " K 0" if o[0] == "C" else ""))
+            dev2.append((o[0],) + tuple(v for u in us for v in fwd(u)))     # the exact device-space curve of the f32 user points
+        dev = dev2
         if closed:
             toks.append("Z")
         style = "STYLE %d %s %s %d 0 %d" % (FB(width / s), cap, join, FB(4.0), FB(0.0))
         scenes.append("scene %d %d %d I %s ; xf %s ; stroke %s %s SRC solid ffffffff 3 %d 1" % (
-            i, W, H, zero, scene.xf_tokens((s, 0.0, 0.0, s, 0.0, 0.0)), scene.path_tokens(toks, 0), style, FB(1.0)))
+            i, W, H, zero, scene.xf_tokens(m), scene.path_tokens(toks, 0), style, FB(1.0)))
         meta.append((dev, closed, width, join))
     impl, died = build.run_sharded(build.RQV, sc.augment(scenes))
     checked = 0
